@@ -115,6 +115,13 @@ class Seq:
         self.nd = nd         # a view of a NumPy array (isinstance(..., np.ndarray), element-wise arithmetic)
 
 
+class PoolV:
+    """a multiprocessing.Pool object (assumed library contract: see exec_call.me_pool_map)"""
+
+    def __repr__(self):
+        return 'PoolV'
+
+
 class Uninit:
     """value of an uninitialised C object"""
     __slots__ = ('name',)
